@@ -182,6 +182,13 @@ def declared(ctx, it):
     return methods, props, signals
 
 
+def strip_lifetimes(t):
+    t = re.sub(r"'\w+\s*,\s*", "", t)
+    t = re.sub(r"<'\w+>", "", t)
+    t = re.sub(r"&'\w+\s+", "&", t)
+    return t
+
+
 def sig_list(types):
     return "".join(X.sig(t) for t in types)
 
@@ -194,8 +201,8 @@ def same_types(ctx, rule, key, declared_types, wire_type, where, what, wrap=Fals
         ok = a == b
         det = "%s: declared `%s` %s / on the wire `%s` (%s)" % (what, a, declared_types, b, wire_type)
     except X.TypeErr:
-        na = [X.norm(t) for t in declared_types]
-        nb = [X.norm(t) for t in wire_elems]
+        na = [strip_lifetimes(X.norm(t)) for t in declared_types]
+        nb = [strip_lifetimes(X.norm(t)) for t in wire_elems]
         # a reply that is one struct-typed value is declared as its fields' list only when it is a tuple; compare Rust types
         ok = na == nb
         det = "%s: declared %s / on the wire %s (compared as Rust types)" % (what, na, nb)
